@@ -68,8 +68,8 @@ pub(crate) fn try_match_point_job(
 
             Ok(Some(JobInfo(job.clone(), single.clone(), place, ctx.time)))
         }
-        "break" | "reload" | "recharge" => Ok(Some(
-            (1..)
+        "break" | "reload" | "recharge" => {
+            let candidates = (1..)
                 .map(|idx| format!("{}_{}_{}_{}", tour.vehicle_id, activity.activity_type, tour.shift_index, idx))
                 .map(|job_id| job_index.get(&job_id))
                 .take_while(|job| job.is_some())
@@ -77,9 +77,21 @@ pub(crate) fn try_match_point_job(
                 .filter_map(|(job, single)| {
                     match_place(&single, false, &ctx).map(|place| JobInfo(job, single, place, ctx.time.clone()))
                 })
-                .next()
-                .ok_or_else(|| format!("cannot match '{}' for '{}'", ctx.act_type, tour.vehicle_id))?,
-        )),
+                .collect::<Vec<_>>();
+
+            // NOTE several places can share location and tag: prefer the one which has the same duration
+            let idx = candidates
+                .iter()
+                .position(|JobInfo(_, _, place, time)| time.end == time.start.max(place.time.start) + place.duration)
+                .unwrap_or(0);
+
+            Ok(Some(
+                candidates
+                    .into_iter()
+                    .nth(idx)
+                    .ok_or_else(|| format!("cannot match '{}' for '{}'", ctx.act_type, tour.vehicle_id))?,
+            ))
+        }
         _ => Err(format!("unknown activity type: {}", activity.activity_type).into()),
     }
 }
